@@ -221,7 +221,7 @@ def execute(sc):
                         lc.op_advance(h, op[1])
                     elif name == "exchange":
                         g = np.random.Generator(np.random.PCG64([op[1], 17]))
-                        pos = h.target.draw(g, h.T if cfg["target"]["kind"] != "banana" else 1.0)
+                        pos = h.foreign_point(h.target.draw(g, h.T if cfg["target"]["kind"] != "banana" else 1.0))
                         lc.op_exchange(h, pos, h.target.logpdf(pos))
                         stats["fault_exchange_installs_foreign_point"] += 1
                     elif name == "scribble":
